@@ -2110,7 +2110,8 @@ func decodeJSXEntities(decoded []uint16, text string) []uint16 {
 						number = number[1:]
 						base = 16
 					}
-					if value, err := strconv.ParseInt(number, base, 32); err == nil {
+					// Note: This must not accept a sign or a value that isn't a code point
+					if value, err := strconv.ParseUint(number, base, 32); err == nil && value <= 0x10FFFF {
 						c = rune(value)
 						i += length + 1
 					}
